@@ -42,6 +42,9 @@ def main(argv=None):
         env["PYTHONHASHSEED"] = "0"
         os.execve(sys.executable, [sys.executable, "-m", "nslmc.cli"] + (argv or sys.argv[1:]), env)
     sys.setrecursionlimit(10000)
+    from . import fastarena
+
+    fastarena.install()
     t0 = time.time()
     snapshot.activate()
     mod = importlib.import_module(f"nslmc.props.{prop.lower()}")
